@@ -378,7 +378,7 @@ impl Check for C10 {
     }
     fn assumptions(&self) -> Vec<String> {
         vec![
-            "images are capped at 64 KiB (the reader pre-allocates ~190 KiB per struct; memory is not part of the statement)".into(),
+            "most images are capped at 64 KiB (the reader pre-allocates ~190 KiB per struct), the scale images reach 9 MB; memory use is not part of the statement, but failing allocations are a fault kind: workers run under an 8 GiB address-space limit, so a reservation computed from a damaged count or length field aborts the worker and is reported as a crash (own patch m17)".into(),
             "time-proportionality is checked as a source-call/byte budget (calls <= 4*len + 3*faults + 64, bytes requested <= 2*len + 200000 when unchunked: read_exact asks for a full <=64 KiB payload and once more for its remainder at EOF) on the SimSource path and by the supervisor watchdog (10 s of child CPU time without progress) on the from_bytes path".into(),
             "stack overflow / abort are contained by running in a child process; such a death is attributed to the run, not to a sub-case".into(),
             "exhaustive over the listed fault kinds for the images explored, not over all byte strings".into(),
